@@ -81,6 +81,24 @@ fn verif_pure_text_form()
         if got != want { t.wrong(&format!("{:?}", v), &format!("human_readable gives {} expected {}", got, want)); }
         if got.len() != 43 || !got.chars().all(|c| c.is_ascii_alphanumeric()) { t.wrong(&got, "text form is not 43 alphanumerics"); }
     }
+    /*  two hashes are the same hash exactly when all 32 bytes agree -- as values (==) and as keys of a table (HashMap / HashSet): a
+        near miss in ANY one byte is another hash */
+    for v in values.iter().take(150)
+    {
+        let a = ticket_of_bytes(v);
+        let mut set = std::collections::HashSet::new(); set.insert(a.clone());
+        let mut map = std::collections::HashMap::new(); map.insert(a.clone(), 1u8);
+        t.case();
+        if !(a == ticket_of_bytes(v)) || !set.contains(&ticket_of_bytes(v)) || map.get(&ticket_of_bytes(v)) != Some(&1u8) { t.wrong(&format!("{:?}", v), "a hash is not equal to itself (==, or as a key)"); }
+        for i in 0..32usize { for flip in [1u8, 0x80u8].iter()
+        {
+            let mut w = *v; w[i] ^= *flip;
+            let b = ticket_of_bytes(&w);
+            t.case();
+            if a == b { t.wrong(&format!("{:?} / byte {} ^ {:#x}", v, i, flip), "two different 256-bit values compare equal as hashes"); }
+            if set.contains(&b) || map.get(&b).is_some() { t.wrong(&format!("{:?} / byte {} ^ {:#x}", v, i, flip), "a table keyed by one hash answers for another 256-bit value"); }
+        } }
+    }
     /*  strings that are not text forms must be rejected; accepted strings must re-encode to themselves */
     let alphabet : Vec<char> = "09azAZ_-[`]^\\/.% :Ł\u{131}\u{430}é".chars().collect();
     let mut strings : Vec<String> = vec![];
@@ -551,6 +569,26 @@ fn verif_pure_compare_insert()
             if h.get_file_state_vec(&tk(9)) != Some(&fa) { t.wrong(&format!("{} vs {}", la, lb), "the earlier record was not kept"); }
         }
     } }
+    /*  near misses: hashes that differ in ONE byte (any of the 32) are different hashes for compare, for insert and for the look-up */
+    {
+        let mut base = [0u8; 32]; for (i, b) in base.iter_mut().enumerate() { *b = (i as u8).wrapping_mul(37).wrapping_add(11); }
+        for i in 0..32usize
+        {
+            let mut other = base; other[i] ^= 0x10;
+            let (x, y) = (ticket_of_bytes(&base), ticket_of_bytes(&other));
+            let fx = FileStateVec::from_ticket_vec(vec![x.clone(), x.clone()]); let fy = FileStateVec::from_ticket_vec(vec![x.clone(), y.clone()]);
+            t.case();
+            match fx.compare(fy.clone()) { Err(BlobError::Contradiction(v)) if v == vec![1usize] => {}, other => t.wrong(&format!("near miss in byte {}", i), &format!("compare gives {:?}, expected Contradiction([1])", other)) }
+            let mut h = RuleHistory::new();
+            h.insert(x.clone(), fx.clone()).unwrap();
+            t.case();
+            match h.insert(x.clone(), fy.clone()) { Err(RuleHistoryInsertError::Contradiction(v)) if v == vec![1usize] => {}, other => t.wrong(&format!("near miss in byte {}", i), &format!("insert gives {:?}, expected Contradiction([1])", other)) }
+            t.case();
+            if h.get_file_state_vec(&y).is_some() { t.wrong(&format!("near miss in byte {}", i), "a record is found under a source hash that was never recorded"); }
+            t.case();
+            if h.insert(y.clone(), fy.clone()).is_err() || h.get_file_state_vec(&y) != Some(&fy) || h.get_file_state_vec(&x) != Some(&fx) { t.wrong(&format!("near miss in byte {}", i), "records under two source hashes that differ in one byte disturb each other"); }
+        }
+    }
     /*  a LONG history: a record, once made, stays -- however many other source states are recorded after it */
     {
         let big = |i: usize| TicketFactory::from_str(&format!("source state {}", i)).result();
